@@ -390,5 +390,13 @@ theorem select1_noselect_partial (simd owned : Bool) (ws : List (BitVec 64)) (le
 
 example : (construct false true [0xB#64] 6 .noSelect).map (fun I => I.select1 0) = some none := by decide +kernel
 
+/-- Full statement of the part of the property not proved in this delivery (a definition of the
+proposition, never asserted): `select1(k)` with a select index = position of the `k`-th open. -/
+def select1_eq_full_statement : Prop :=
+  ∀ (simd owned : Bool) (ws : List (BitVec 64)) (len rate : Nat) (withSelect : Bool) (j : Nat),
+    ws.length = (len + 63) / 64 → len < 2 ^ 32 →
+    (construct simd owned ws len (if withSelect then .withSelect else .csPoppy rate)).map (fun I => I.select1 j) =
+      some (BP.select1 (bitsOf ws len) j)
+
 
 end SV.Props.C04
